@@ -54,8 +54,8 @@ template <class VM> std::string jmap(const VM& vm) {
   return s + "}";
 }
 int count_group(int g) {   // delivered constraints of one group, in delivery order
-  int n = 0; std::string key = "\"group\":" + std::to_string(g) + ",";
-  for (auto& c : vf::st().cons) if (c.find(key) != std::string::npos) ++n;
+  int n = 0; std::string key = "\"group\": " + std::to_string(g) + ",", key2 = "\"group\":" + std::to_string(g) + ",";
+  for (auto& c : vf::st().cons) if (c.find(key) != std::string::npos || c.find(key2) != std::string::npos) ++n;
   return n;
 }
 int nvars() { // count of "[" entries at depth 1 of vars JSON
